@@ -3,6 +3,7 @@ from .common import *
 from utpsa.facts import short_owner
 
 SEQ_BODIES = ("seq_nr::", "<seq_nr::SeqNr as ")
+TRACING_SINKS = ("tracing::", "tracing_core::", "log::", "core::fmt::", "std::fmt::")
 ORDER_OPS = {"Lt", "Le", "Gt", "Ge", "Cmp"}
 ARITH_OPS = {"Add", "AddWithOverflow", "AddUnchecked", "Sub", "SubWithOverflow", "SubUnchecked", "Mul", "MulWithOverflow", "Div", "Rem"}
 OK_SINKS = ("to_be_bytes", "to_le_bytes", "to_ne_bytes", "fmt", "hash", "Hash::hash", "wrapping_add", "wrapping_sub", "PartialEq::eq", "PartialEq::ne", "Argument::new_display", "Argument::new_debug", "Value::from", "from_be_bytes")
@@ -102,11 +103,14 @@ def c09_1(R):
                 c = how[5:]
                 if any(c == s or c.endswith("::" + s) for s in OK_SINKS) or call_matches(it, ("Deref::deref",)):
                     bad = False
-                elif any(c.endswith("::" + s) for s in ("cmp", "partial_cmp", "lt", "le", "gt", "ge", "min", "max", "clamp", "checked_sub", "checked_add", "saturating_sub", "saturating_add", "abs_diff")):
-                    bad = True
+                elif getattr(it, "is_tracing", False) or c.startswith(TRACING_SINKS) or "::field::debug" in c or "::field::display" in c:
+                    bad = False  # a log argument
                 else:
-                    bad = False
-                    R.note("raw SeqNr value passed to %s in %s (not an ordering/arithmetic sink)" % (short_callee(c), owner_fn(b)))
+                    # allow-list: anything else that receives the raw 16-bit value (comparisons, min/max, checked / saturating arithmetic, range
+                    # constructors, conversions to wider integers ...) takes it out of the modular type
+                    bad = True
+            elif how == "rv:agg" and not getattr(it, "is_tracing", False):
+                bad = True  # packed into a tuple / range / struct as a plain integer
             if bad:
                 R.fail([owner_fn(b), "raw-seqnr", how.split("::")[-1]], "a raw 16-bit sequence value is compared/ordered or added without wrap handling (%s): wrong across the 65535 -> 0 wrap" % how, where=it.where(), instance="raw-seqnr-use")
             else:
